@@ -65,7 +65,19 @@ fn main() {
             )
         }
         "C20" => {
-            let mut p = make_part("real-time", "CONV/sock", if cli.thorough { 24 } else { 4 }, props_sock2::c20_real_strategy, |_| (), |w, c| props_sock2::c20_real_test(w, c));
+            // quick: a fixed list that covers every listen-address kind; thorough: 24 generated ones
+            let mut p = if cli.thorough {
+                make_part("real-time", "CONV/sock", 24, props_sock2::c20_real_strategy, |_| (), |w, c| props_sock2::c20_real_test(w, c))
+            } else {
+                let b = 8 + (cli.seed as usize * 7) % 24;
+                let fixed = vec![
+                    props_sock2::RealShutdown { tcp: true, addr: 1, burst: b, hold: true },
+                    props_sock2::RealShutdown { tcp: false, addr: 0, burst: 24, hold: cli.seed % 2 == 0 },
+                    props_sock2::RealShutdown { tcp: true, addr: 2, burst: 12, hold: false },
+                    props_sock2::RealShutdown { tcp: true, addr: if cli.seed % 2 == 0 { 3 } else { 0 }, burst: b + 5, hold: true },
+                ];
+                make_list_part("real-time", "CONV/sock", fixed, false, |_| (), |w, c| props_sock2::c20_real_test(w, c))
+            };
             p.max_workers = Some(1);
             p.max_shrink_iters = 8;
             parts.push(p);
